@@ -7,7 +7,7 @@ import common, gen, runner
 THEOREMS = ["Osmt.Properties.C20_chunk_independent", "Osmt.Properties.C20_two_chunkings_agree",
             "Osmt.Properties.C20_frames_prefix", "Osmt.Properties.C20_depth"]
 ALPHABET = ['(', ')', '"', '|', ';', '\\', 'a', ' ', '\n']
-SCHEDULES = ["0", "1", "2,3", "5,1,1", "7", "16", "3,29"]
+SCHEDULES = ["0", "1", "2,3", "5,1,1", "16", "3,29"]
 
 
 def enc(s):
@@ -61,7 +61,7 @@ def framer_case(args):
     bad = []
     n = 0
     for s, m in zip(strings, model):
-        for sched in (SCHEDULES if len(s) > 2 else SCHEDULES[:2]):
+        for sched in (SCHEDULES if len(s) > 4 else SCHEDULES[:3] if len(s) > 2 else SCHEDULES[:2]):
             rc, out, frames = pipe_run(binary, so, s, sched)
             n += 1
             # after the first "unbalanced parentheses" error the C++ still scans the rest of the bytes already in its
@@ -133,10 +133,11 @@ def run(tier):
         strings += ["".join(t) for t in itertools.product(ALPHABET, repeat=n)]
     rng = chk.rng
     if tier == "quick":
-        strings = [s for s in strings if len(s) <= 3] + rng.sample([s for s in strings if len(s) == 4], 900)
+        strings = [s for s in strings if len(s) <= 2] + rng.sample([s for s in strings if len(s) == 3], 300) + \
+            rng.sample([s for s in strings if len(s) == 4], 300)
     # longer structured strings
-    for _ in range(150 if tier == "quick" else 3000):
-        strings.append("".join(rng.choice(ALPHABET + ['(', ')', 'a']) for _ in range(rng.randint(5, 40))))
+    for _ in range(300 if tier == "quick" else 3000):
+        strings.append("".join(rng.choice(ALPHABET + ['(', ')', 'a', '"', '\\']) for _ in range(rng.randint(5, 40))))
     chunks = [strings[i::28] for i in range(28)]
     with mp.Pool(min(common.JOBS, 14)) as pool:
         res = pool.map(framer_case, [(c, binary, so) for c in chunks])
@@ -154,7 +155,7 @@ def run(tier):
         chk._distinct.add(s)
     chk.obligation(all(not bad for _, bad in res))
     # ---- pipe vs file on valid scripts
-    nscr = 60 if tier == "quick" else 1500
+    nscr = 50 if tier == "quick" else 1500
     with mp.Pool(min(common.JOBS, 14)) as pool:
         sres = pool.map(script_case, [(i, chk.seed, binary, so) for i in range(nscr)], chunksize=2)
     for r in sres:
